@@ -78,8 +78,9 @@ def _rot(seq, seed):
     return seq[seed % len(seq)]
 
 
-def alphabets(seed):
-    """Boundary core + seed-rotated ordinary members.  -> (full, reduced) alphabets by datatype name."""
+def alphabets(seed, thorough):
+    """Boundary core + seed-rotated ordinary members.  -> (full, reduced) alphabets by datatype name.
+    The thorough tier adds members (marked +) to both."""
     A, C, P, I = R.A, R.C, R.P, R.I
     d1, d2 = datetime.date(2020, 1, 3), datetime.date(2019, 12, 31)
     o_int = _rot([7, 42, 9, 63], seed)
@@ -90,36 +91,37 @@ def alphabets(seed):
     hool1 = P('1.123', 'HOOL', C('2.50', 'USD', d1, 'lbl'))
     hool2 = P('2.000', 'HOOL', C('3.00', 'USD', d1))
     hool3 = P('1', 'HOOL', C('4.00', 'USD', d2))
+    inv2 = I(P('-8.80750', 'USD'), P('2.5', 'HOOL', C('3', 'USD', d1)))
+    inv3 = I(P('-7', 'EUR'), hool2, hool3)
+    inv7 = I(P('1', 'USD'), P('2', 'EUR'), hool2, hool3, P('4.5', 'GBP'), P('5', 'CAD'), P('600', 'JPY'))
+    plus = (lambda *v: list(v)) if thorough else (lambda *v: [])
     full = {
         'int': [None, -300, 0, o_int, o_big],
-        'decimal': [None, D('-1.5'), D('0'), D('0.50'), D('2'), o_dec, D('1E+3'), D('-0.001'), D(1) / D(3), D('1E-7')],
-        'str': [None, '', 'a', o_str, 'x' * 12, 'p,q', 'é"r'],
+        'decimal': [None, D('-1.5'), D('0'), D('0.50'), o_dec, D('1E+3'), D('-0.001'), D(1) / D(3)] + plus(D('2'), D('1E-7')),
+        'str': [None, '', o_str, 'x' * 12, 'p,q', 'é"r'] + plus('a'),
         'date': [None, datetime.date(2020, 2, 29), datetime.date(1999, 12, 31), datetime.date(900, 1, 1)],
         'bool': [None, True, False],
         'set': [None, frozenset(), frozenset({'a'}), frozenset({'a', 'bcd'})],
         'dict': [None, {}, {'k': 1}, {'filename': '<string>', 'lineno': 11}],
         'object': [None, D('2.50'), 'x', datetime.date(2020, 1, 2), True, {'k': 1}],
-        'amount': [None, A(o_amt, 'USD'), A('-1000', 'HOOL'), A('0', 'EUR'), A('3.14159', 'USD'), A('-2.80750', 'USD'), A('100', 'JPY')],
+        'amount': [None, A(o_amt, 'USD'), A('-1000', 'HOOL'), A('0', 'EUR'), A('3.14159', 'USD'), A('-2.80750', 'USD')] + plus(A('100', 'JPY')),
         'position': [None, hool1, P('-3', 'USD'), hool2, P('7', 'EUR'), P('-2.80750', 'USD')],
         'cost': [None, C('2.50', 'USD', d1, 'lbl'), C('3.00', 'USD', d1), C('1234.5678', 'EUR', d2)],
-        'inventory': [None, I(), I(P('1', 'USD')), I(P('1.00', 'USD'), P('2.5', 'HOOL', C('3', 'USD', d1))),
-                      I(P('-7', 'EUR'), hool2, hool3),
-                      I(P('-8.80750', 'USD'), P('7', 'EUR'), hool1, hool2),
-                      I(P('1', 'USD'), P('2', 'EUR'), hool2, hool3, P('4.5', 'GBP'), P('5', 'CAD'), P('600', 'JPY'))],
+        'inventory': [None, I(), I(P('1', 'USD')), inv2, inv3, inv7] + plus(I(P('-8.80750', 'USD'), P('7', 'EUR'), hool1, hool2)),
     }
     reduced = {
-        'int': [None, -300, o_int],
-        'decimal': [None, D('-1.5'), D('0.50'), o_dec],
-        'str': [None, '', o_str],
-        'date': [None, datetime.date(2020, 2, 29)],
+        'int': [None, -300, o_int] + plus(0),
+        'decimal': [None, D('-1.5'), D('0.50'), o_dec] + plus(D('1E+3')),
+        'str': [None, '', o_str] + plus('p,q'),
+        'date': [None, datetime.date(2020, 2, 29)] + plus(datetime.date(900, 1, 1)),
         'bool': [None, True, False],
-        'set': [None, frozenset(), frozenset({'a', 'bcd'})],
-        'dict': [None, {'k': 1}],
-        'object': [None, D('2.50'), 'x'],
-        'amount': [None, A(o_amt, 'USD'), A('-1000', 'HOOL'), A('3.14159', 'USD')],
-        'position': [None, hool1, P('-3', 'USD')],
-        'cost': [None, C('2.50', 'USD', d1, 'lbl'), C('1234.5678', 'EUR', d2)],
-        'inventory': [None, I(), I(P('1.00', 'USD'), P('2.5', 'HOOL', C('3', 'USD', d1))), I(P('-7', 'EUR'), hool2, hool3)],
+        'set': [None, frozenset(), frozenset({'a', 'bcd'})] + plus(frozenset({'a'})),
+        'dict': [None, {'k': 1}] + plus({}),
+        'object': [None, D('2.50'), 'x'] + plus(True),
+        'amount': [None, A(o_amt, 'USD'), A('-1000', 'HOOL'), A('3.14159', 'USD')] + plus(A('0', 'EUR')),
+        'position': [None, hool1, P('-3', 'USD')] + plus(P('7', 'EUR')),
+        'cost': [None, C('2.50', 'USD', d1, 'lbl'), C('1234.5678', 'EUR', d2)] + plus(C('3.00', 'USD', d1)),
+        'inventory': [None, I(), inv2, inv3] + plus(inv7),
     }
     return full, reduced
 
@@ -146,7 +148,7 @@ def oa16_options():
 
 def tables(seed, thorough):
     """Deterministic, simplest-first enumeration of (kind, names, dtype names, rows)."""
-    full, reduced = alphabets(seed)
+    full, reduced = alphabets(seed, thorough)
     for t in DTORDER:
         for name in ('c', 'a_rather_long_header'):
             for n in range(0, 4):
@@ -191,7 +193,7 @@ def check_cell(dtype, v, colcells, o, stats):
         for c in nonblank:
             if not R.POS_RE.fullmatch(c.strip()):
                 return ('readback', f'expanded inventory line {c!r} is not exactly one position')
-        msg = R.read_positions('\n'.join(colcells), v.get_positions(), R.show(v))
+        msg = R.read_positions('\n'.join(colcells), v.get_positions(), v)
         return ('readback', msg) if msg else None
     if len(nonblank) > 1:
         return ('readback', f'single-valued {R.show(v)} is spread over several lines {colcells!r}')
@@ -371,7 +373,7 @@ def fingerprint(kind, locus, col, names, dtnames, rows, o):
             guilty.append(dtnames[j])
     if guilty:
         return f'render:{kind}:{locus}:{guilty[0]}'
-    return f'render:{kind}:{locus}:pair:{"+".join(dtnames)}'
+    return f'render:{kind}:{locus}:pair'
 
 
 def describe(names, dtnames, rows, o):
@@ -417,8 +419,20 @@ def record(acc, fp, what, case):
 
 
 def collect(acc):
+    """Smallest witnesses first.  A clause that fails for at least half of the datatypes is a defect of the shared
+    table layout, not of one column renderer: those fingerprints are merged into one without datatype."""
+    items = sorted(acc.sets['violations'])
+    suffixes = {}
+    for key, fp, what, case in items:
+        head, _, tail = fp.rpartition(':')
+        if fp.count(':') == 3 and '@' not in fp:
+            suffixes.setdefault(head, set()).add(tail)
+    generic = {head for head, tails in suffixes.items() if len(tails - {'pair'}) >= len(DTORDER) // 2}
     byfp = {}
-    for key, fp, what, case in sorted(acc.sets['violations']):
+    for key, fp, what, case in items:
+        head = fp.rpartition(':')[0]
+        if fp.count(':') == 3 and head in generic:
+            fp = head
         byfp.setdefault(fp, [])
         if len(byfp[fp]) < 3:
             byfp[fp].append(Violation(fp, what, json.loads(case)))
@@ -488,7 +502,7 @@ def run(ctx):
     R.display_context()
     acc = run_shards(shard, ctx.jobs, ctx.seed, ctx.thorough, nshards=max(ctx.jobs, 1) * 4)
     n = acc.n
-    full, reduced = alphabets(ctx.seed)
+    full, reduced = alphabets(ctx.seed, ctx.thorough)
     cov = {
         'states': n['configurations'],
         'transitions': n['renders'] + n['csv_renders'],
